@@ -312,6 +312,11 @@ def exec_step(step, sess, chains, audit):
                 continue
             if isinstance(v, ParameterObject) and step.get('objects_as_definitions') and hasattr(v, '_taskchain_instantiate_def'):
                 params[nic] = _copy.deepcopy(v._taskchain_instantiate_def)
+            elif isinstance(v, rt.LabChainObj):
+                # an instance handed to the helper: without the reference to the REAL chain it had collected (the helper's chain initialises it again)
+                v2 = _copy.copy(v)
+                v2._chain = None
+                params[nic] = v2
             else:
                 params[nic] = v
         for drop in step.get('drop_params', []):
@@ -385,6 +390,11 @@ def exec_step(step, sess, chains, audit):
                     params.setdefault(nic, v)
                 listed = [cls, type(it)] if step['also_listed'] % 2 else [type(it), cls]
                 obs['also_listed'] = type(it).__name__
+        for nic_, v_ in list(params.items()):
+            if isinstance(v_, rt.LabChainObj) and getattr(v_, '_chain', None) is not None:
+                v2_ = _copy.copy(v_)
+                v2_._chain = None
+                params[nic_] = v2_
         try:
             if step.get('use_test_chain'):
                 tc = TestChain(listed, mock_tasks=mocks, parameters=params, base_dir=base)
